@@ -180,7 +180,46 @@ def seq_points(name, m, k):
     return pts
 
 
+def check_via_job(name, m, k, step):
+    """Designs evaluated the way algorithms evaluate them (Algorithm.evaluate -> Job), two of them almost at the same point:
+    each recorded cost vector satisfies the identities for ITS OWN vector."""
+    from artap.algorithm import DummyAlgorithm
+    from artap.individual import Individual
+    p = problem_for(name, m, k)
+    p.individuals = []
+    base = list(seq_points(name, m, k)[1])
+    pts = [list(base)]
+    for j in (0, len(base) - 1):
+        q = list(base)
+        q[j] = min(1.0, q[j] + step) if q[j] + step <= 1.0 else q[j] - step
+        pts.append(q)
+    inds = [Individual(list(x)) for x in pts]
+    try:
+        DummyAlgorithm(p).evaluate(inds)
+    except Exception as e:
+        return [("C16:%s:via-job:exception:%s" % (name, type(e).__name__), "%s(m=%d): evaluating %r raised %r" % (name, m, pts, e))]
+    out = []
+    for ind, x in zip(inds, pts):
+        if [float(v) for v in ind.vector] != [float(v) for v in x]:
+            out.append(("C16:%s:via-job:vector-changed" % name, "%s(m=%d): design %r became %r" % (name, m, x, list(ind.vector))))
+            break
+        viol = check_values(name, m, k, tuple(float(v) for v in ind.vector), [float(v) for v in ind.costs])
+        if viol:
+            out += [(key + ":evaluated-through-job", "designs %g apart evaluated in one batch: %s" % (step, msg)) for key, msg in viol[:1]]
+            break
+    return out
+
+
 def _shard(shard, col: Collector):
+    if shard[0] == "viajob":
+        _, name, m, k = shard
+        for step in (1e-2, 1e-6, 1e-7, 3e-8, 1e-8, 1e-9, 1e-12):
+            col.case()
+            col.nontrivial(("viajob", name, m, k, step))
+            for key, msg in check_via_job(name, m, k, step):
+                col.violation(key, "viajob", msg, {"name": name, "m": m, "k": k, "step": step})
+        col.sample({"kind": "near-identical designs evaluated through Algorithm.evaluate", "problem": name}, 1)
+        return
     if shard[0] == "seq":
         _, name, m, k = shard
         for as_numpy in (False, True, "ndarray", "keep"):
@@ -229,6 +268,8 @@ def _shard(shard, col: Collector):
 
 
 def replay(sub, case):
+    if sub == "viajob":
+        return check_via_job(case["name"], case["m"], case["k"], case["step"])
     if sub == "seq":
         return check_sequence(case["name"], case["m"], case["k"], seq_points(case["name"], case["m"], case["k"]), case["numpy"])
     return check_point(case["name"], case["m"], case["k"], tuple(case["x"]), case.get("numpy", False))
@@ -252,6 +293,14 @@ def run(tier, seed):
     for m in ms:
         shards += [("seq", "DTLZ1", m, 3), ("seq", "DTLZ2", m, 10), ("seq", "DTLZ3", m, 10), ("seq", "DTLZ4", m, 10)]
     shards += [("seq", "ZDT1", 2, 29), ("seq", "BI", 2, 0)]
+    # far more distance variables / objectives than the lattice reaches (sizes at which fast paths would switch on)
+    for k in (31, 32, 33, 64, 65, 100, 127, 128, 129, 200, 256, 257, 1000):
+        for m in (2, 3):
+            shards += [("seq", "DTLZ1", m, k)]        # DTLZ2-4 are stated for dimension m+9 only (their k is fixed to 10)
+    for m in (8, 10, 16, 17, 33):
+        shards += [("seq", "DTLZ1", m, 5), ("seq", "DTLZ2", m, 10), ("seq", "DTLZ3", m, 10), ("seq", "DTLZ4", m, 10)]
+    for name, m, k in (("DTLZ1", 3, 3), ("DTLZ2", 3, 10), ("DTLZ3", 2, 10), ("DTLZ4", 3, 10), ("ZDT1", 2, 29), ("BI", 2, 0)):
+        shards.append(("viajob", name, m, k))
     for p0 in POS:
         shards += [("DTLZ3", 3, 10, "ndarray", p0, 1), ("DTLZ1", 4, 2, "ndarray", p0, 1), ("DTLZ4", 2, 10, "ndarray", p0, 1)]
     shards.sort(key=lambda s: -(s[1] if isinstance(s[1], int) else s[2]))
